@@ -10,7 +10,7 @@
 From Coq Require Import List NArith Bool Arith.
 From Shovel Require Import Base.Outcome Model.Manager
   Proofs.ManagerLoadP Proofs.ManagerRunP Proofs.ManagerRunP2 Proofs.ManagerRunP3 Proofs.ManagerRunP4
-  Proofs.BridgeManagerTaskP Corr.RunC20.
+  Proofs.ManagerRunP5 Proofs.BridgeManagerTaskP Corr.RunC20.
 From Shovel Require Model.TaskTypes.
 Import ListNotations.
 
@@ -175,6 +175,32 @@ Theorem legacy_lost_restart_hangs : forall cont,
 Proof. exact legacy_lost_restart_hangs_l. Qed.
 Print Assumptions legacy_lost_restart_hangs.
 
+(* Repaired code, all schedules: the restart channel of the generation that
+   owns the lock is closed exactly while a Run started by Restart is queued
+   behind it ([nq] counts those Runs). *)
+Theorem channel_closed_only_if_queued : forall sched h x,
+  let s := exec Fixed init sched in
+  lock s = Some h -> nth_error (runs s) h = Some x -> owns_channel Fixed (r_pc x) = true ->
+  (is_closed s (cur s) = true <-> 0 < nq s).
+Proof. exact channel_closed_only_if_queued_l. Qed.
+Print Assumptions channel_closed_only_if_queued.
+
+(* Hence the generation a completed Restart leaves behind really RUNS: once
+   every Restart call has returned, the owning generation's channel is open and
+   a runner that reaches its select goes on into Converge.  (tm.waiting is
+   given back by every Run that took the lock, also when its loadTasks fails;
+   a Run that kept it would make every later generation start with a closed
+   channel: loaded, announced, and not running.) *)
+Theorem loaded_generation_runs : forall sched h x,
+  let s := exec Fixed init sched in
+  all_returned s = true ->
+  lock s = Some h -> nth_error (runs s) h = Some x -> owns_channel Fixed (r_pc x) = true ->
+  is_closed s (cur s) = false
+  /\ forall t g, nth_error (tasks s) t = Some g -> g_pc g = TCheck ->
+       nth_error (tasks (step Fixed s (ATaskCheck t))) t = Some {| g_gen := g_gen g; g_pc := TStep |}.
+Proof. exact loaded_generation_runs_l. Qed.
+Print Assumptions loaded_generation_runs.
+
 (* ================= bridge to the task layer (C01..C06) ================= *)
 (* The multi-task theorems of Properties/C04.v ([system_frame],
    [other_tasks_preserve_inv], [system_invariant]) assume a list of task
@@ -256,6 +282,7 @@ Proof. vm_compute. split; reflexivity. Qed.
 (* a failed reload, then a repaired configuration *)
 Example ex_failed_then_good :
   let ops := [OStore (Some 1); OStart; OStore None; ORestart; OStore (Some 2); ORestart] in
-  (let s := st (play Fixed ops) in map rst_obs (rsts s) = [1; 0] /\ crashed s = false)
+  (let s := st (play Fixed ops) in map rst_obs (rsts s) = [1; 0] /\ crashed s = false
+     /\ is_closed s (cur s) = false /\ live_gens s = [2])
   /\ crashed (st (play Legacy ops)) = true.
 Proof. vm_compute. repeat split. Qed.
